@@ -511,6 +511,13 @@ class ScenarioLoader:
              "connection in network (including from outside) as defined by "
              "network topology matrix")
 
+        # each subnet connection must have a single rule, however its
+        # (src, dest) key is written
+        connections = [eval(connect) for connect in firewall]
+        assert len(connections) == len(set(connections)), \
+            ("Firewall dictionary must not contain more than one entry for "
+             "the same subnet connection")
+
         for f in firewall.values():
             assert self._is_valid_firewall_setting(f), \
                 ("Firewall setting must be a list, contain only valid "
